@@ -82,77 +82,88 @@ static std::size_t tk_emit_item(uint8_t tid, const void* obj, uint64_t tag) { To
 // =========================================================================================== reader side
 static int64_t r_key_of(int slot) { return slot <= 16 ? slot : (slot <= 19 ? -(int64_t)(slot - 16) : R.ukey[slot - TK_UNK0]); }
 static void r_tick() { if (r_tokens >= r_cut) throw CdnsDecoderEnd("End of input stream"); r_tokens++; }
-static void r_member_done() { r_value_pending = false; r_pos++; }
+static void r_member_done() { r_value_pending = false; r_pos++; if (!r_indef && r_pos == r_nmem) r_done = true; }
 static uint64_t r_cur_len() { return r_arr_slot < 0 ? R.declared : R.val[r_arr_slot].u; }
-static const Tok& r_cur_elem() { return R.arr[r_arr_slot < 0 ? 0 : r_arr_slot][r_arr_pos < TK_NARR ? r_arr_pos : 0]; }
 static void r_elem_done() { r_arr_pos++; if (!r_arr_indef && r_arr_pos == r_cur_len()) { r_in_arr = false; if (r_arr_slot >= 0) r_member_done(); else r_done = true; } }
-static uint8_t r_cbor_type(const Tok& t) {
-    switch (t.kind) {
+// the token a consuming read would take next is named by a source code (no pointers with symbolic offsets into the
+// store, no struct copies at symbolic indices): >= 0 slot of R.val, -1 the scalar top-level item, -2 current array element
+#define SRC_NONE (-9)
+static int r_arr_row() { return r_arr_slot < 0 ? 0 : r_arr_slot; }
+static unsigned r_arr_col() { return r_arr_pos < TK_NARR ? r_arr_pos : 0; }
+static uint8_t tk_kind(int src) { return src >= 0 ? R.val[src].kind : (src == -1 ? R.top_tok.kind : R.arr[r_arr_row()][r_arr_col()].kind); }
+static uint64_t tk_u(int src) { return src >= 0 ? R.val[src].u : (src == -1 ? R.top_tok.u : R.arr[r_arr_row()][r_arr_col()].u); }
+static uint8_t tk_slen(int src) { return src >= 0 ? R.val[src].slen : (src == -1 ? R.top_tok.slen : R.arr[r_arr_row()][r_arr_col()].slen); }
+static unsigned char tk_s(int src, unsigned i) { return src >= 0 ? R.val[src].s[i] : (src == -1 ? R.top_tok.s[i] : R.arr[r_arr_row()][r_arr_col()].s[i]); }
+static uint8_t tk_tid(int src) { return src >= 0 ? R.val[src].tid : (src == -1 ? R.top_tok.tid : R.arr[r_arr_row()][r_arr_col()].tid); }
+static int r_next(bool& is_key, bool& at_break) {
+    is_key = false; at_break = false;
+    if (r_in_arr) { if (r_arr_pos < r_cur_len()) return -2; at_break = r_arr_indef; return SRC_NONE; }
+    if (!r_started) { if (R.top == K_MAP || R.top == K_ARR) return SRC_NONE; return -1; }
+    if (r_value_pending) return r_cur_slot;
+    if (r_pos < r_nmem) { is_key = true; return SRC_NONE; }
+    at_break = r_indef && !r_done;
+    return SRC_NONE;
+}
+static uint8_t r_cbor_type_k(uint8_t kind) {
+    switch (kind) {
         case K_UINT: return 0x00; case K_NEG: return 0x20; case K_BSTR: return 0x40; case K_TSTR: return 0x60;
         case K_ARR: return 0x80; case K_MAP: case K_ITEM: return 0xA0; case K_BOOL: return 0xE0; default: return 0xC0;
     }
 }
-// the token a consuming read would take next; kind K_NONE = a break / nothing
-static const Tok* r_next(bool& is_key, bool& at_break) {
-    is_key = false; at_break = false;
-    if (r_in_arr) { if (r_arr_pos < r_cur_len()) return &r_cur_elem(); at_break = r_arr_indef; return nullptr; }
-    if (!r_started) return R.top == K_MAP || R.top == K_ARR ? nullptr : &R.top_tok;
-    if (r_value_pending) return &R.val[r_cur_slot];
-    if (r_pos < r_nmem) { is_key = true; return nullptr; }
-    at_break = r_indef && !r_done;
-    return nullptr;
-}
 CborType CdnsDecoder::peek_type() {
     if (r_tokens >= r_cut) throw CdnsDecoderEnd("End of input stream");
-    bool is_key, at_break; const Tok* t = r_next(is_key, at_break);
+    bool is_key, at_break; int src = r_next(is_key, at_break);
     if (at_break) return CborType::BREAK;
     if (is_key) return r_key_of(r_order[r_pos]) < 0 ? CborType::NEGATIVE : CborType::UNSIGNED;
-    if (t) return static_cast<CborType>(r_cbor_type(*t));
+    if (src != SRC_NONE) return static_cast<CborType>(r_cbor_type_k(tk_kind(src)));
     if (!r_started) return R.top == K_MAP ? CborType::MAP : CborType::ARRAY;
     throw CdnsDecoderEnd("End of input stream");           // nothing follows the single item offered
 }
-static const Tok& r_take(bool want_key_ok, bool& was_key, int64_t& key) {
+static int r_take(bool want_key_ok, bool& was_key, int64_t& key) {
     r_tick();
-    bool is_key, at_break; const Tok* t = r_next(is_key, at_break);
+    bool is_key, at_break; int src = r_next(is_key, at_break);
     was_key = false;
     if (at_break) throw CdnsDecoderException("model: value read at a break");
     if (is_key) {
         if (!want_key_ok) throw CdnsDecoderException("model: wrong major type (integer key)");
         r_cur_slot = r_order[r_pos]; key = r_key_of(r_cur_slot); r_value_pending = true; was_key = true;
-        return R.top_tok;
+        return SRC_NONE;
     }
-    if (!t) { if (r_started) throw CdnsDecoderEnd("End of input stream"); throw CdnsDecoderException("model: container where a scalar was expected"); }
-    return *t;
+    if (src == SRC_NONE) { if (r_started) throw CdnsDecoderEnd("End of input stream"); throw CdnsDecoderException("model: container where a scalar was expected"); }
+    return src;
 }
 static void r_consumed_value() { if (r_in_arr) r_elem_done(); else if (!r_started) { r_started = true; r_done = true; } else r_member_done(); }
 uint64_t CdnsDecoder::read_unsigned() {
-    bool was_key; int64_t key = 0; const Tok& t = r_take(true, was_key, key);
+    bool was_key; int64_t key = 0; int t = r_take(true, was_key, key);
     if (was_key) { if (key < 0) { r_value_pending = false; throw CdnsDecoderException("read_unsigned() called on wrong major type"); } return (uint64_t)key; }
-    if (t.kind != K_UINT) throw CdnsDecoderException("read_unsigned() called on wrong major type");
-    uint64_t v = t.u; r_consumed_value(); return v;
+    if (tk_kind(t) != K_UINT) throw CdnsDecoderException("read_unsigned() called on wrong major type");
+    uint64_t v = tk_u(t); r_consumed_value(); return v;
 }
 int64_t CdnsDecoder::read_negative() {
-    bool was_key; int64_t key = 0; const Tok& t = r_take(true, was_key, key);
+    bool was_key; int64_t key = 0; int t = r_take(true, was_key, key);
     if (was_key) { if (key >= 0) { r_value_pending = false; throw CdnsDecoderException("read_negative() called on wrong major type"); } return key; }
-    if (t.kind != K_NEG) throw CdnsDecoderException("read_negative() called on wrong major type");
-    int64_t v = -1 - (int64_t)t.u; r_consumed_value(); return v;
+    if (tk_kind(t) != K_NEG) throw CdnsDecoderException("read_negative() called on wrong major type");
+    int64_t v = -1 - (int64_t)tk_u(t); r_consumed_value(); return v;
 }
 int64_t CdnsDecoder::read_integer() {
-    bool was_key; int64_t key = 0; const Tok& t = r_take(true, was_key, key);
+    bool was_key; int64_t key = 0; int t = r_take(true, was_key, key);
     if (was_key) return key;
-    if (t.kind != K_UINT && t.kind != K_NEG) throw CdnsDecoderException("read_integer() called on wrong major type");
-    int64_t v = t.kind == K_UINT ? (int64_t)t.u : -1 - (int64_t)t.u; r_consumed_value(); return v;
+    uint8_t k = tk_kind(t);
+    if (k != K_UINT && k != K_NEG) throw CdnsDecoderException("read_integer() called on wrong major type");
+    int64_t v = k == K_UINT ? (int64_t)tk_u(t) : -1 - (int64_t)tk_u(t); r_consumed_value(); return v;
 }
 bool CdnsDecoder::read_bool() {
-    bool was_key; int64_t key = 0; const Tok& t = r_take(false, was_key, key);
-    if (t.kind == K_UINT) { bool v = t.u != 0; r_consumed_value(); return v; }       // the real decoder accepts integers as booleans
-    if (t.kind != K_BOOL) throw CdnsDecoderException("read_bool() called on wrong major type");
-    bool v = t.u != 0; r_consumed_value(); return v;
+    bool was_key; int64_t key = 0; int t = r_take(false, was_key, key);
+    uint8_t k = tk_kind(t);
+    if (k == K_UINT) { bool v = tk_u(t) != 0; r_consumed_value(); return v; }       // the real decoder accepts integers as booleans
+    if (k != K_BOOL) throw CdnsDecoderException("read_bool() called on wrong major type");
+    bool v = tk_u(t) != 0; r_consumed_value(); return v;
 }
 static std::string r_string(uint8_t kind) {
-    bool was_key; int64_t key = 0; const Tok& t = r_take(false, was_key, key);
-    if (t.kind != kind) throw CdnsDecoderException("read_*string() called on wrong major type");
-    std::string s; for (unsigned i = 0; i < VS_STRCAP; i++) if (i < t.slen) s.push_back((char)t.s[i]);
+    bool was_key; int64_t key = 0; int t = r_take(false, was_key, key);
+    if (tk_kind(t) != kind) throw CdnsDecoderException("read_*string() called on wrong major type");
+    std::string s; uint8_t n = tk_slen(t);
+    for (unsigned i = 0; i < VS_STRCAP; i++) if (i < n) s.push_back((char)tk_s(t, i));
     r_consumed_value(); return s;
 }
 std::string CdnsDecoder::read_bytestring() { return r_string(K_BSTR); }
@@ -187,10 +198,10 @@ void CdnsDecoder::read_break() {
 }
 void CdnsDecoder::skip_item() {
     r_tick();
-    bool is_key, at_break; const Tok* t = r_next(is_key, at_break);
+    bool is_key, at_break; int src = r_next(is_key, at_break);
     if (at_break) throw CdnsDecoderException("model: skip at a break");
     if (is_key) { r_cur_slot = r_order[r_pos]; r_value_pending = true; return; }
-    if (!t) { if (!r_started) { r_started = true; r_done = true; return; } throw CdnsDecoderEnd("End of input stream"); }
+    if (src == SRC_NONE) { if (!r_started) { r_started = true; r_done = true; return; } throw CdnsDecoderEnd("End of input stream"); }
     r_consumed_value();                                   // an array value is skipped as a whole
 }
 void CdnsDecoder::skip_item(unsigned) { skip_item(); }
@@ -200,7 +211,7 @@ std::string CdnsDecoder::read_string(CborType, uint64_t, bool) { r_misuse = true
 void CdnsDecoder::read_to_buffer() { r_misuse = true; }
 // nested read() calls are replaced by this contract: consumes exactly one item of the right type, returns its tag
 static uint64_t tk_take_item(uint8_t tid) {
-    bool was_key; int64_t key = 0; const Tok& t = r_take(false, was_key, key);
-    if (t.kind != K_ITEM || t.tid != tid) throw CdnsDecoderException("model: nested item of another type");
-    uint64_t tag = t.u; r_consumed_value(); return tag;
+    bool was_key; int64_t key = 0; int t = r_take(false, was_key, key);
+    if (tk_kind(t) != K_ITEM || tk_tid(t) != tid) throw CdnsDecoderException("model: nested item of another type");
+    uint64_t tag = tk_u(t); r_consumed_value(); return tag;
 }
